@@ -22,10 +22,14 @@ def norm_idx(p):
 
 
 def run(ctx):
+    ctx.count('functions_analysed', 2)
+    membership(ctx)
+    nonmembership(ctx)
+
+
+def membership(ctx):
     prog = ctx.prog
     vm = prog.one(VM)
-    vn = prog.one(VN)
-    ctx.count('functions_analysed', 2)
 
     # ---- verify_membership
     fold = {}
@@ -64,7 +68,11 @@ def run(ctx):
                'branch on sibling_proof.direction selects left/right operand order of the parent hash'
                if dirsw and swapped else 'sibling_proof.direction no longer selects the operand order of compute_parent_hash_from_children')
 
-    # ---- verify_nonmembership
+
+
+def nonmembership(ctx):
+    prog = ctx.prog
+    vn = prog.one(VN)
     for i in (0, 1):
         require_guard(ctx, vn, 'C05.O1[%d]' % i, 'RF-GUARD',
                       lambda fc, i=i: fc[0] == 'rel' and fc[1] == 'eq' and
